@@ -1599,11 +1599,146 @@ Section Refine.
       rewrite Ns. cbn [negb andb].
       assert (El : (limit <? d_sz d) = false) by (apply N.ltb_ge; rewrite <- Hs; exact Hl).
       rewrite El, E1, Hs, N.eqb_refl, <- Hh, str_eqb_refl. cbn [negb orb]. rewrite Sj.
-      rewrite E2, E3, E4. reflexivity.
+      rewrite E2. rewrite <- update_x_fst in E3.
+      destruct (update_referrers_index_x _ _ _ _ _ _ _ _ _ (g, n2) RSUnsupported sj (RRemove d)) as [[[[a3 b3] c3] e3] cl].
+      cbn [fst] in E3. injection E3 as -> -> -> ->. rewrite E4. reflexivity.
     - rewrite Gm4. apply lookup_remove_eq.
     - exists n'', t'. cbn [run_op]. unfold predecessors. rewrite R. f_equal. f_equal.
       destruct (is_nil upd) eqn:En; [|reflexivity].
       destruct upd; [|discriminate]. destruct skip_gc; reflexivity.
+  Qed.
+
+  (* ---------- lifted to HISTORIES: every sequence of Push / Delete of manifests with one subject
+     against a registry without the Referrers API ---------- *)
+  (* Predecessors against a registry without the API: the API request is answered 404, the client
+     falls back to the tag schema (and remembers); the registry is left as it is *)
+  Lemma preds_noapi g n rst sj st :
+    minv g -> p_referrers p = false -> rst <> RSSupported ->
+    valid_digest (d_dg sj) = true ->
+    let tag := ref_tag (d_dg sj) in
+    resolve_ref main tag = Some tag -> valid_digest tag = false ->
+    (p_clen p = true \/ p_dighdr p = true) ->
+    index_state g tag st -> json_ok_st st ->
+    exists n' t, run_op' (g, n) rst (OPreds sj)
+                 = ((g, n'), RSUnsupported, t, RDescs (clean_refs [] (ix_list st))).
+  Proof.
+    intros Hi Pr Hrs Vs tag ER Vt Hp Hst Hj. cbn [run_op]. unfold predecessors.
+    destruct rst; [|congruence|].
+    - assert (Hx : ex0 (g, n) (req GET main (EReferrers (d_dg sj))) = ((g, n + 1), resp_err 404)).
+      { unfold cexch, handle, req. proj. rewrite str_eqb_refl. proj. now rewrite Pr. }
+      rewrite Hx.
+      destruct (tag_schema_read g (n + 1) sj st Hi Vs ER Vt Hp Hst Hj) as (n' & t & R).
+      simp. assert (str_eqb [] name_unknown = false) as -> by (vm_compute; reflexivity).
+      rewrite R. cbn [rs_set]. eauto.
+    - destruct (tag_schema_read g n sj st Hi Vs ER Vt Hp Hst Hj) as (n' & t & R).
+      rewrite R. cbn [lift]. eauto.
+  Qed.
+
+  Inductive tsop := TPush (d : desc) (c : str) | TDelete (d : desc) (c : str) | TPreds.
+  Definition ts_op (sj : desc) (o : tsop) : op :=
+    match o with TPush d c => OPush d c | TDelete d _ => ODelete d | TPreds => OPreds sj end.
+  (* what the referrers index lists after the operation (applyReferrerChanges) *)
+  Definition ts_next (l : list desc) (o : tsop) : list desc :=
+    match o with
+    | TPush d _ => clean_refs [] l ++ [d]
+    | TDelete d _ => filter (fun x => negb (desc_eqb d x)) (clean_refs [] l)
+    | TPreds => l
+    end.
+  Definition ts_post (st : option (str * list desc)) (o : tsop) : option (str * list desc) :=
+    match o with TPreds => st | _ => ix_post (ts_next (ix_list st) o) end.
+  (* the result of the operation *)
+  Definition ts_res (st : option (str * list desc)) (o : tsop) : result :=
+    match o with TPreds => RDescs (clean_refs [] (ix_list st)) | _ => ROk end.
+  (* the local side conditions of one operation in the state it meets: an accurate, indexable
+     manifest with subject sj that is new to / listed in the index; the indexes read and written
+     decode and fit the limit; no digest collision between manifest, old index and new index *)
+  Definition ts_step_ok (sj : desc) (g : reg) (st : option (str * list desc)) (o : tsop) : Prop :=
+    let upd := ts_next (ix_list st) o in
+    json_ok_st st /\
+    match o with TPreds => True | _ =>
+      json_ok upd /\ len (gen_index upd) <= limit /\
+      (skip_gc = true \/ forall od l0, st = Some (od, l0) -> od <> H (gen_index upd)) end /\
+    match o with
+    | TPreds => True
+    | TPush d c =>
+        is_manifest user_mts d = true /\ indexable (d_mt d) = true /\
+        len c = d_sz d /\ H c = d_dg d /\ valid_digest (d_dg d) = true /\
+        parse_mt (d_mt d) = Some (d_mt d) /\ len c <= limit /\
+        subject_of c = Some (Some sj) /\
+        (forall od l0, st = Some (od, l0) -> od <> d_dg d) /\
+        existsb (desc_eqb d) (clean_refs [] (ix_list st)) = false
+    | TDelete d c =>
+        is_manifest user_mts d = true /\ indexable_del (d_mt d) = true /\
+        lookup (d_dg d) (g_mans g) = Some (d_mt d, c) /\ len c = d_sz d /\ valid_digest (d_dg d) = true /\
+        subject_of c = Some (Some sj) /\
+        (exists od l, st = Some (od, l) /\ od <> d_dg d) /\
+        existsb (desc_eqb d) (clean_refs [] (ix_list st)) = true /\
+        H (gen_index upd) <> d_dg d
+    end.
+  (* ... checked along the run, as wf_hist checks operations against the store they meet *)
+  Fixpoint ts_hist_ok (sj : desc) (s : S) (rst : rstate) (st : option (str * list desc)) (os : list tsop) : Prop :=
+    match os with
+    | [] => True
+    | o :: r =>
+        ts_step_ok sj (fst s) st o /\
+        let '(s1, rst1, _, _) := run_op' s rst (ts_op sj o) in
+        ts_hist_ok sj s1 rst1 (ts_post st o) r
+    end.
+  Fixpoint ts_final (st : option (str * list desc)) (os : list tsop) : option (str * list desc) :=
+    match os with [] => st | o :: r => ts_final (ts_post st o) r end.
+  Fixpoint ts_results (st : option (str * list desc)) (os : list tsop) : list result :=
+    match os with [] => [] | o :: r => ts_res st o :: ts_results (ts_post st o) r end.
+
+  Theorem tag_schema_history sj os : forall g n rst st,
+    minv g -> p_referrers p = false -> rst <> RSSupported ->
+    valid_digest (d_dg sj) = true ->
+    let tag := ref_tag (d_dg sj) in
+    resolve_ref main tag = Some tag -> valid_digest tag = false ->
+    (p_clen p = true \/ p_dighdr p = true) ->
+    index_state g tag st -> NoDup (map fst (g_tags g)) ->
+    ts_hist_ok sj (g, n) rst st os ->
+    exists g' n' rst' out,
+      run_ops' (g, n) rst (map (ts_op sj) os) = ((g', n'), rst', out) /\
+      map snd out = ts_results st os /\ rst' <> RSSupported /\
+      minv g' /\ index_state g' tag (ts_final st os) /\ NoDup (map fst (g_tags g')) /\
+      (json_ok_st (ts_final st os) ->
+       exists n'' t', tag_schema_referrers H parse_mt main user_mts limit index_of S ex0 (g', n') sj
+                      = ((g', n''), t', RDescs (clean_refs [] (ix_list (ts_final st os))))).
+  Proof.
+    induction os as [|o os IH]; intros g n rst st Hi Pr Hrs Vs tag ER Vt Hp Hst Hu Hok.
+    - exists g, n, rst, []. cbn [run_ops map ts_final ts_results].
+      split; [reflexivity|]. split; [reflexivity|]. split; [exact Hrs|]. split; [exact Hi|]. split; [exact Hst|].
+      split; [exact Hu|]. intro Hj. apply (tag_schema_read g n sj st Hi Vs ER Vt Hp Hst Hj).
+    - cbn [ts_hist_ok] in Hok. destruct Hok as [Hstep Hrest]. cbn [fst] in Hstep.
+      destruct Hstep as (Hjo & Hupd & Hop).
+      assert (Step : exists g1 n1 t1,
+                 run_op' (g, n) rst (ts_op sj o) = ((g1, n1), RSUnsupported, t1, ts_res st o) /\ minv g1 /\
+                 index_state g1 tag (ts_post st o) /\ NoDup (map fst (g_tags g1))).
+      { destruct o as [d c|d c|]; cbn [ts_op ts_next ts_post ts_res] in *;
+          [destruct Hupd as (Hju & Hlim & Hcol)|destruct Hupd as (Hju & Hlim & Hcol)|].
+        3: { destruct (preds_noapi g n rst sj st Hi Pr Hrs Vs ER Vt Hp Hst Hjo) as (n1 & t1 & E1).
+             exists g, n1, t1. split; [exact E1|]. split; [exact Hi|]. split; [exact Hst|exact Hu]. }
+        - destruct Hop as (Him & Hix & Hs & Hh & V & Pm & Hl & Sj & Hod & Hnew).
+          destruct (push_subject_then_predecessors g n rst d c sj st Hi Pr Hrs Him Hix Hs Hh V Pm Hl Sj Vs ER Vt Hp Hst Hjo Hu Hod Hnew Hlim Hju Hcol)
+            as (g1 & n1 & t1 & E1 & Hi1 & Ist1 & Hu1 & _).
+          exists g1, n1, t1. split; [exact E1|]. split; [exact Hi1|]. split; [|exact Hu1].
+          assert (Nn : is_nil (clean_refs [] (ix_list st) ++ [d]) = false)
+            by (destruct (clean_refs [] (ix_list st)); reflexivity).
+          unfold ix_post. rewrite Nn. exact Ist1.
+        - destruct Hop as (Him & Hix & L & Hs & V & Sj & (od & l & -> & Hod) & Hin & Hj).
+          cbn [ix_list] in *.
+          assert (Hcol' : skip_gc = true \/ od <> H (gen_index (filter (fun x => negb (desc_eqb d x)) (clean_refs [] l)))).
+          { destruct Hcol as [X|X]; [now left|right; eapply X; eauto]. }
+          destruct (delete_subject_then_predecessors g n rst d c sj od l Hi Pr Hrs Him Hix L Hs V Sj Vs ER Vt Hp Hst Hjo Hu Hod Hin Hlim Hju Hj Hcol')
+            as (g1 & n1 & t1 & E1 & Hi1 & _ & Ist1 & Hu1 & _).
+          exists g1, n1, t1. split; [exact E1|]. split; [exact Hi1|]. split; [exact Ist1|exact Hu1]. }
+      destruct Step as (g1 & n1 & t1 & E1 & Hi1 & Ist1 & Hu1).
+      rewrite E1 in Hrest.
+      destruct (IH g1 n1 RSUnsupported _ Hi1 Pr ltac:(discriminate) Vs ER Vt Hp Ist1 Hu1 Hrest)
+        as (g' & n' & rst' & out & E & Ho & Hrs' & Hi' & Ist' & Hu' & R).
+      exists g', n', rst', ((t1, ts_res st o) :: out). cbn [run_ops map ts_final ts_results snd]. rewrite E1, E.
+      split; [reflexivity|]. split; [now rewrite Ho|]. split; [exact Hrs'|]. split; [exact Hi'|].
+      split; [exact Ist'|]. split; [exact Hu'|exact R].
   Qed.
 
   (* ---------- the digest-header hypothesis is exactly the failing mechanism ---------- *)
@@ -1880,4 +2015,43 @@ Proof.
   split; [vm_compute; discriminate|]. split; [now left|].
   exists [sat_b]. split; [vm_compute; reflexivity|]. split; [vm_compute; reflexivity|].
   split; [vm_compute; discriminate|]. split; [now left|]. exact I.
+Qed.
+
+(* the side conditions of tag_schema_history are satisfiable: push a referrer, then delete it *)
+Definition sat3_D1 := b "sha256:1111111111111111111111111111111111111111111111111111111111111111".
+Definition sat3_D2 := b "sha256:2222222222222222222222222222222222222222222222222222222222222222".
+Definition sat3_D3 := b "sha256:3333333333333333333333333333333333333333333333333333333333333333".
+Definition sat3_d := mkDesc mt_oci_manifest sat3_D1 3.
+Definition sat3_H (c : str) : str :=
+  if str_eqb c sat_c then sat3_D1 else if str_eqb c (gen_index [sat3_d]) then sat3_D2 else sat3_D3.
+Definition sat3_index_of (c : str) : option (list desc) :=
+  if str_eqb c (gen_index [sat3_d]) then Some [sat3_d] else Some [].
+Definition sat3_ops := [TPush sat3_d sat_c; TPreds; TDelete sat3_d sat_c].
+Lemma tag_schema_history_satisfiable :
+  (forall c, valid_digest (sat3_H c) = true) /\
+  ts_hist_ok sat3_H (fun s => Some s) sat_subject (b "app") (b "src") [] w_limit false sat3_index_of ts_profile
+             sat_sj (reg0 [], 0) RSUnknown None sat3_ops /\
+  ts_final sat3_H false None sat3_ops = None /\
+  ts_results sat3_H false None sat3_ops = [ROk; RDescs [sat3_d]; ROk].
+Proof.
+  split; [|split; [|split; vm_compute; reflexivity]].
+  - intro c. unfold sat3_H. destruct (str_eqb c sat_c); [|destruct (str_eqb c (gen_index [sat3_d]))];
+      vm_compute; reflexivity.
+  - unfold sat3_ops. cbn [ts_hist_ok]. split.
+    + unfold ts_step_ok. cbn [ts_next ix_list fst].
+      repeat split; try (vm_compute; reflexivity); try (vm_compute; discriminate); try discriminate.
+      right. discriminate.
+    + destruct (run_op sat3_H (fun s => Some s) sat_subject (b "app") (b "src") [] w_limit false sat3_index_of
+                       (reg * N) (cexch sat3_H sat_subject (b "app") (b "src") ts_profile None)
+                       (reg0 [], 0) RSUnknown (ts_op sat_sj (TPush sat3_d sat_c))) as [[[s1 rst1] t1] r1] eqn:E.
+      vm_compute in E. injection E as <- <- _ _. split.
+      { unfold ts_step_ok. repeat split; try (vm_compute; reflexivity). }
+      cbn [ts_post ts_next ix_list].
+      match goal with |- context [run_op ?a ?b ?c ?d ?e ?f ?g ?h ?i ?j ?k ?s ?r ?o] =>
+        destruct (run_op a b c d e f g h i j k s r o) as [[[s2 rst2] t2] r2] eqn:E2 end.
+      vm_compute in E2. injection E2 as <- <- _ _. split; [|exact I].
+      unfold ts_step_ok. cbn [ts_next ix_list fst].
+      repeat split; try (vm_compute; reflexivity); try (vm_compute; discriminate).
+      * right. intros od l0 X. vm_compute in X. injection X as <- <-. vm_compute. discriminate.
+      * eexists _, _. split; [vm_compute; reflexivity|]. vm_compute. discriminate.
 Qed.
